@@ -261,6 +261,91 @@ impl<T> RwLock<T> {
         }
     }
 
+    /// Non-blocking read: a scheduling point, then admission exactly as `read` would decide it.
+    pub fn try_read(&self) -> std::sync::TryLockResult<RwLockReadGuard<'_, T>> {
+        let Some(gate) = gate() else {
+            return match self.inner.try_read() {
+                Ok(g) => Ok(RwLockReadGuard { lock: self, inner: Some(g), sim: false }),
+                Err(TryLockError::Poisoned(p)) => Err(TryLockError::Poisoned(PoisonError::new(RwLockReadGuard { lock: self, inner: Some(p.into_inner()), sim: false }))),
+                Err(TryLockError::WouldBlock) => Err(TryLockError::WouldBlock),
+            };
+        };
+        let me = current_actor();
+        let policy = POLICY.with(|p| p.get());
+        event(self.id, LockEventKind::ReadRequest);
+        let g = gate.mutex.lock().unwrap();
+        let admitted = {
+            let mut st = self.state.lock().unwrap();
+            let ok = st.writer.is_none() && !(st.writers_waiting > 0 && policy == 0);
+            if ok {
+                st.readers.push(me);
+            }
+            ok
+        };
+        drop(g);
+        if !admitted {
+            return Err(TryLockError::WouldBlock);
+        }
+        PROBES.with(|p| p.borrow_mut().reads += 1);
+        event(self.id, LockEventKind::ReadAcquired);
+        shuttle::thread::yield_now();
+        match self.inner.try_read() {
+            Ok(g) => Ok(RwLockReadGuard { lock: self, inner: Some(g), sim: true }),
+            Err(TryLockError::Poisoned(p)) => Err(TryLockError::Poisoned(PoisonError::new(RwLockReadGuard { lock: self, inner: Some(p.into_inner()), sim: true }))),
+            Err(TryLockError::WouldBlock) => unreachable!("simulated RwLock admitted a reader while the inner lock is write-held"),
+        }
+    }
+
+    /// Non-blocking write: a scheduling point, then admission exactly as `write` would decide it.
+    pub fn try_write(&self) -> std::sync::TryLockResult<RwLockWriteGuard<'_, T>> {
+        let Some(gate) = gate() else {
+            return match self.inner.try_write() {
+                Ok(g) => Ok(RwLockWriteGuard { lock: self, inner: Some(g), sim: false }),
+                Err(TryLockError::Poisoned(p)) => Err(TryLockError::Poisoned(PoisonError::new(RwLockWriteGuard { lock: self, inner: Some(p.into_inner()), sim: false }))),
+                Err(TryLockError::WouldBlock) => Err(TryLockError::WouldBlock),
+            };
+        };
+        let me = current_actor();
+        event(self.id, LockEventKind::WriteRequest);
+        let g = gate.mutex.lock().unwrap();
+        let admitted = {
+            let mut st = self.state.lock().unwrap();
+            let ok = st.writer.is_none() && st.readers.is_empty();
+            if ok {
+                st.writer = Some(me);
+            }
+            ok
+        };
+        drop(g);
+        if !admitted {
+            return Err(TryLockError::WouldBlock);
+        }
+        PROBES.with(|p| p.borrow_mut().writes += 1);
+        event(self.id, LockEventKind::WriteAcquired);
+        shuttle::thread::yield_now();
+        match self.inner.try_write() {
+            Ok(g) => Ok(RwLockWriteGuard { lock: self, inner: Some(g), sim: true }),
+            Err(TryLockError::Poisoned(p)) => Err(TryLockError::Poisoned(PoisonError::new(RwLockWriteGuard { lock: self, inner: Some(p.into_inner()), sim: true }))),
+            Err(TryLockError::WouldBlock) => unreachable!("simulated RwLock admitted a writer while the inner lock is held"),
+        }
+    }
+
+    pub fn is_poisoned(&self) -> bool {
+        self.inner.is_poisoned()
+    }
+
+    pub fn clear_poison(&self) {
+        self.inner.clear_poison()
+    }
+
+    pub fn get_mut(&mut self) -> LockResult<&mut T> {
+        self.inner.get_mut()
+    }
+
+    pub fn into_inner(self) -> LockResult<T> {
+        self.inner.into_inner()
+    }
+
     fn release(&self, write: bool) {
         let me = current_actor();
         {
